@@ -9,8 +9,8 @@ consistent (one step = one atomic memory action); non-atomic multi-word writes a
 several steps so that "a reader sees a half-written structure" is a reachable-state question.
 
   Lazy      internal/impl/lazy.go lazyUnmarshal + generated getter (cmd/protoc-gen-go/internal_gengo/opaque.go):
-            Present → AtomicCheckPointerIsNil → UnmarshalField (decode into a fresh object;
-            AtomicSetPointerIfNil = CAS(nil→p)) → AtomicLoadPointer
+            Present → AtomicCheckPointerIsNil → UnmarshalField (allocate a fresh object; merge every
+            index entry of the field into it; AtomicSetPointerIfNil = CAS(nil→p)) → AtomicLoadPointer
   Dcl       internal/impl/message.go MessageInfo.init/initOnce, internal/filedesc/desc.go
             File.lazyInit/lazyInitOnce, sync.Once (desc_list.go tables): atomic load of the done
             flag; lock; re-check; body (several plain writes); atomic store; unlock; read
@@ -39,20 +39,31 @@ the broken variant, the object it decoded itself. -/
 inductive Result | reload | mine
   deriving DecidableEq, Repr
 
+/-- when `lazyUnmarshal` publishes: as its last action, after ALL index entries (non-contiguous
+wire occurrences of the field) have been merged into the private object — or, the broken variant
+"publish-then-mutate", inside the loop over the entries (after each entry). -/
+inductive Timing | afterAll | insideLoop
+  deriving DecidableEq, Repr
+
 structure Cfg (β α : Type) where
   publish : Publish
   result  : Result
-  present : Bool          -- presence bit of the field; read-only operations never change it
-  buf     : β             -- the immutable lazy buffer
-  decode  : β → α         -- decoding is a pure function of the buffer
+  timing  : Timing
+  present : Bool            -- presence bit of the field; read-only operations never change it
+  buf     : β               -- the immutable lazy buffer
+  entries : Nat             -- number of index entries of the field (lazy.FindFieldInProto: 1, or len(multipleEntries))
+  decodeK : β → Nat → α     -- contents of the object after merging the first k entries: a pure function of the buffer
+
+/-- the complete decoding of the field -/
+def Cfg.full {β α : Type} (cfg : Cfg β α) : α := cfg.decodeK cfg.buf cfg.entries
 
 inductive PC where
   | checkPresent
   | checkNil
-  | decode
-  | publish (mine : Nat)
+  | decode                                  -- about to allocate the fresh object (`reflect.New(f.ft)`)
+  | own (mine : Nat) (k : Nat) (pub : Bool)  -- owns object `mine`, k entries merged; pub: at the publishing CAS
   | load
-  | done (res : Option Nat)   -- `none`: field absent, getter returned nil
+  | done (res : Option Nat)                 -- `none`: field absent, getter returned nil
   deriving DecidableEq, Repr
 
 structure State (α : Type) where
@@ -67,11 +78,29 @@ def init {α} : State α :=
 
 variable {β α : Type}
 
-/-- where a thread continues after the publish step -/
+/-- where a thread continues after `lazyUnmarshal` -/
 def afterPublish (cfg : Cfg β α) (m : Nat) : PC :=
   match cfg.result with
   | .reload => .load
   | .mine => .done (some m)
+
+/-- after merging one more entry (k entries merged now) -/
+def afterMerge (cfg : Cfg β α) (m k : Nat) : PC :=
+  match cfg.timing with
+  | .afterAll => .own m k false
+  | .insideLoop => .own m k true
+
+/-- when all entries are merged -/
+def afterLoop (cfg : Cfg β α) (m k : Nat) : PC :=
+  match cfg.timing with
+  | .afterAll => .own m k true
+  | .insideLoop => afterPublish cfg m
+
+/-- after the publishing step -/
+def afterCas (cfg : Cfg β α) (m k : Nat) : PC :=
+  match cfg.timing with
+  | .afterAll => afterPublish cfg m
+  | .insideLoop => .own m k false
 
 /-- one atomic step of thread `i` -/
 inductive Step (cfg : Cfg β α) : State α → State α → Prop where
@@ -83,15 +112,20 @@ inductive Step (cfg : Cfg β α) : State α → State α → Prop where
       Step cfg s { s with pc := upd s.pc i .decode }
   | checkNil_set (s i v) : s.pc i = .checkNil → s.cell = some v →
       Step cfg s { s with pc := upd s.pc i .load }
-  | decode (s i) : s.pc i = .decode →
-      Step cfg s { s with next := s.next + 1, heap := upd s.heap s.next (some (cfg.decode cfg.buf)),
-                          pc := upd s.pc i (.publish s.next) }
-  | cas_win (s i m) : s.pc i = .publish m → cfg.publish = .cas → s.cell = none →
-      Step cfg s { s with cell := some m, pc := upd s.pc i (afterPublish cfg m) }
-  | cas_lose (s i m v) : s.pc i = .publish m → cfg.publish = .cas → s.cell = some v →
-      Step cfg s { s with lost := upd s.lost m true, pc := upd s.pc i (afterPublish cfg m) }
-  | store (s i m) : s.pc i = .publish m → cfg.publish = .store →
-      Step cfg s { s with cell := some m, pc := upd s.pc i (afterPublish cfg m) }
+  | alloc (s i) : s.pc i = .decode →
+      Step cfg s { s with next := s.next + 1, heap := upd s.heap s.next (some (cfg.decodeK cfg.buf 0)),
+                          pc := upd s.pc i (.own s.next 0 false) }
+  | merge (s i m k) : s.pc i = .own m k false → k < cfg.entries →
+      Step cfg s { s with heap := upd s.heap m (some (cfg.decodeK cfg.buf (k + 1))),
+                          pc := upd s.pc i (afterMerge cfg m (k + 1)) }
+  | merge_end (s i m k) : s.pc i = .own m k false → ¬ k < cfg.entries →
+      Step cfg s { s with pc := upd s.pc i (afterLoop cfg m k) }
+  | cas_win (s i m k) : s.pc i = .own m k true → cfg.publish = .cas → s.cell = none →
+      Step cfg s { s with cell := some m, pc := upd s.pc i (afterCas cfg m k) }
+  | cas_lose (s i m k v) : s.pc i = .own m k true → cfg.publish = .cas → s.cell = some v →
+      Step cfg s { s with lost := upd s.lost m true, pc := upd s.pc i (afterCas cfg m k) }
+  | store (s i m k) : s.pc i = .own m k true → cfg.publish = .store →
+      Step cfg s { s with cell := some m, pc := upd s.pc i (afterCas cfg m k) }
   | load (s i v) : s.pc i = .load → s.cell = some v →
       Step cfg s { s with pc := upd s.pc i (.done (some v)) }
 
@@ -106,15 +140,17 @@ inductive Steps (cfg : Cfg β α) : State α → State α → Prop where
 
 /-- the sequential result: what a single-threaded getter call returns (contents of the object) -/
 def seqResult (cfg : Cfg β α) : Option α :=
-  if cfg.present then some (cfg.decode cfg.buf) else none
+  if cfg.present then some cfg.full else none
 
 /-! ### executable form: one recorded event of the real code -/
 
-/-- Events as recorded from the real code (object identities renumbered by first decode). -/
+/-- Events as recorded from the real code (object identities renumbered by allocation order). -/
 inductive Ev where
   | present (i : Nat) (b : Bool)        -- X.Present returned b
   | checkNil (i : Nat) (isNil : Bool)   -- X.AtomicCheckPointerIsNil returned isNil
-  | decode (i : Nat) (obj : Nat)        -- lazyUnmarshal decoded into the fresh object obj
+  | alloc (i : Nat) (obj : Nat)         -- lazyUnmarshal allocated the fresh object obj
+  | merge (i : Nat)                     -- merged one more index entry into its object
+  | mergeEnd (i : Nat)                  -- left the loop over the entries
   | publish (i : Nat) (won : Bool)      -- AtomicSetPointerIfNil: CAS succeeded / failed
   | load (i : Nat) (obj : Nat)          -- AtomicLoadPointer returned obj (the getter's result)
   deriving DecidableEq, Repr
@@ -128,20 +164,33 @@ def next (cfg : Cfg β α) (s : State α) : Ev → Option (State α)
     if s.pc i = .checkNil ∧ s.cell.isNone = isNil then
       some { s with pc := upd s.pc i (if isNil then .decode else .load) }
     else none
-  | .decode i obj =>
+  | .alloc i obj =>
     if s.pc i = .decode ∧ obj = s.next then
-      some { s with next := s.next + 1, heap := upd s.heap s.next (some (cfg.decode cfg.buf)),
-                    pc := upd s.pc i (.publish s.next) }
+      some { s with next := s.next + 1, heap := upd s.heap s.next (some (cfg.decodeK cfg.buf 0)),
+                    pc := upd s.pc i (.own s.next 0 false) }
     else none
+  | .merge i =>
+    match s.pc i with
+    | .own m k false =>
+      if k < cfg.entries then
+        some { s with heap := upd s.heap m (some (cfg.decodeK cfg.buf (k + 1))),
+                      pc := upd s.pc i (afterMerge cfg m (k + 1)) }
+      else none
+    | _ => none
+  | .mergeEnd i =>
+    match s.pc i with
+    | .own m k false =>
+      if k < cfg.entries then none else some { s with pc := upd s.pc i (afterLoop cfg m k) }
+    | _ => none
   | .publish i won =>
     match s.pc i, cfg.publish with
-    | .publish m, .cas =>
+    | .own m k true, .cas =>
       if s.cell.isNone = won then
-        (if won then some { s with cell := some m, pc := upd s.pc i (afterPublish cfg m) }
-         else some { s with lost := upd s.lost m true, pc := upd s.pc i (afterPublish cfg m) })
+        (if won then some { s with cell := some m, pc := upd s.pc i (afterCas cfg m k) }
+         else some { s with lost := upd s.lost m true, pc := upd s.pc i (afterCas cfg m k) })
       else none
-    | .publish m, .store =>
-      if won then some { s with cell := some m, pc := upd s.pc i (afterPublish cfg m) } else none
+    | .own m k true, .store =>
+      if won then some { s with cell := some m, pc := upd s.pc i (afterCas cfg m k) } else none
     | _, _ => none
   | .load i obj =>
     if s.pc i = .load ∧ s.cell = some obj then
@@ -162,6 +211,10 @@ def firstReject (cfg : Cfg β α) (s : State α) : List Ev → Nat → Option Na
 
 /-- a recorded trace is accepted iff it is a run of the model from the initial state -/
 def acceptsTrace (cfg : Cfg β α) (tr : List Ev) : Bool := (exec cfg init tr).isSome
+
+/-- `lazyUnmarshal` up to (excluding) the CAS as the hooks record it: allocation and all merges -/
+def decodeEvents (cfg : Cfg β α) (i obj : Nat) : List Ev :=
+  .alloc i obj :: (List.replicate cfg.entries (.merge i) ++ [.mergeEnd i])
 
 theorem isNone_true {o : Option Nat} (h : o.isNone = true) : o = none := by
   cases o with
@@ -198,29 +251,45 @@ theorem next_sound (cfg : Cfg β α) {s t : State α} {e : Ev} (h : next cfg s e
         obtain ⟨v, hv⟩ := isNone_false hc.2
         exact Step.checkNil_set s i v hc.1 hv
     · cases h
-  | decode i obj =>
+  | alloc i obj =>
     simp only [next] at h
     split at h
-    · rename_i hc; cases h; exact Step.decode s i hc.1
+    · rename_i hc; cases h; exact Step.alloc s i hc.1
+    · cases h
+  | merge i =>
+    simp only [next] at h
+    split at h
+    · rename_i m k hpc
+      split at h
+      · rename_i hk; cases h; exact Step.merge s i m k hpc hk
+      · cases h
+    · cases h
+  | mergeEnd i =>
+    simp only [next] at h
+    split at h
+    · rename_i m k hpc
+      split at h
+      · cases h
+      · rename_i hk; cases h; exact Step.merge_end s i m k hpc hk
     · cases h
   | publish i won =>
     simp only [next] at h
     split at h
-    · rename_i m hpc hpub
+    · rename_i m k hpc hpub
       split at h
       · rename_i hc
         cases won with
         | true =>
           simp only [if_true] at h; cases h
-          exact Step.cas_win s i m hpc hpub (isNone_true hc)
+          exact Step.cas_win s i m k hpc hpub (isNone_true hc)
         | false =>
           simp only [Bool.false_eq_true, if_false] at h; cases h
           obtain ⟨v, hv⟩ := isNone_false hc
-          exact Step.cas_lose s i m v hpc hpub hv
+          exact Step.cas_lose s i m k v hpc hpub hv
       · cases h
-    · rename_i m hpc hpub
+    · rename_i m k hpc hpub
       split at h
-      · cases h; exact Step.store s i m hpc hpub
+      · cases h; exact Step.store s i m k hpc hpub
       · cases h
     · cases h
   | load i obj =>
